@@ -69,19 +69,26 @@ def templates(tier):
 
 
 def gen(tier):
-    T = templates(tier)
-    wa = ["// generated by /verif/lib/c01gen.py\n"]
-    go = ["//go:build verif\n\npackage wh\n\n// generated by /verif/lib/c01gen.py: Go twins of the Wa templates and the per-template harness glue\n\nimport \"math\"\n\nvar _ = math.Float32bits\n"]
+    return gen_from(templates(tier), "c01")
+
+
+def gen_from(T, tag, wa_imports=(), go_imports=(), wa_extra="", go_extra="", run_start=False):
+    """tag: prefix of assertion labels, harness (VfH_<tag>), module name and generated identifiers"""
+    TAG = tag.upper()
+    wa = ["// generated by /verif/lib/c01gen.py\n" + "".join('import "%s"\n' % i for i in wa_imports) + wa_extra]
+    go = ["//go:build verif\n\npackage wh\n\n// generated by /verif/lib/c01gen.py: Go twins of the Wa templates and the per-template harness glue\n\nimport (\n\t\"math\"\n" +
+          "".join('\t%s\n' % (i if '"' in i else '"%s"' % i) for i in go_imports) + ")\n\nvar _ = math.Float32bits\n" + go_extra]
     cases = []
     for tpl in T:
         name, params, res, wa_body, go_body, assume = tpl[:6]
         zone = tpl[6] if len(tpl) > 6 else None
+        prelude = tpl[7] if len(tpl) > 7 else []  # Go statements that may narrow r_<param> / <param> structurally
         ps = ", ".join("%s: %s" % (p, t) for p, t in params)
         wa.append("#wa:export t_%s\nfunc t_%s(%s) => %s {\n\t%s\n}\n" % (name, name, ps, res, wa_body))
         gps = ", ".join("%s %s" % (p, GO[t]) for p, t in params)
-        go.append("func vfTwin_%s(%s) %s {\n\t%s\n}\n" % (name, gps, GO[res], go_body))
+        go.append("func vfTwin%s_%s(%s) %s {\n\t%s\n}\n" % (TAG, name, gps, GO[res], go_body))
         # harness glue
-        g = ["func vfCase_%s() {" % name]
+        g = ["func vfCase%s_%s() {" % (TAG, name)]
         raw, typed = [], []
         for p, t in params:
             b = BITS[t]
@@ -97,36 +104,38 @@ def gen(tier):
                 g.append("\t%s := %s(r_%s)" % (p, GO[t], p))
                 # the wasm ABI passes sub-word and 32-bit integers in an i32: zero-extended bits of the value
                 raw.append("uint64(r_%s)" % p)
+        for st in prelude:
+            g.append("\t" + st)
         for a in assume:
             g.append("\tvfAssume(%s)" % a)
         g.append("\tvar want %s" % GO[res])
-        g.append("\tpanicked := vfCatch(func() { want = vfTwin_%s(%s) })" % (name, ", ".join(p for p, _ in params)))
+        g.append("\tpanicked := vfCatch(func() { want = vfTwin%s_%s(%s) })" % (TAG, name, ", ".join(p for p, _ in params)))
         g.append("\tif panicked {\n\t\tvfNote(\"go-twin-panics: outside the property's domain\")\n\t\treturn\n\t}")
-        g.append("\tres, trapped := vfWasmCall(vfC01Mod(), \"t_%s\", %s)" % (name, ", ".join(raw)))
+        g.append("\tres, trapped := vfWasmCall(vf%sMod(), \"t_%s\", %s)" % (TAG, name, ", ".join(raw)))
         g.append("\tvfObserve(\"trapped\", vfB2U(trapped))")
         if zone:
             # a zone with a known deviation gets its own assertion labels so that the finding cannot mask the rest of the domain
             g.append("\tzone := \"\"\n\tif %s {\n\t\tzone = \"%s\"\n\t}" % zone)
         else:
             g.append("\tconst zone = \"\"")
-        g.append("\tvfAssert(!trapped, \"c01/wa-terminates-normally-when-go-does\"+zone)")
+        g.append("\tvfAssert(!trapped, \"%s/wa-terminates-normally-when-go-does\"+zone" % tag + ")")
         g.append("\tif trapped {\n\t\treturn\n\t}")
         rb = BITS[res]
         if res == "bool":
             g.append("\tvfObserve(\"result\", res[0])")
-            g.append("\tvfAssert(res[0] == vfB2U(want), \"c01/result-equals-go\"+zone)")
+            g.append("\tvfAssert(res[0] == vfB2U(want), \"TAGX/result-equals-go\"+zone)".replace("TAGX", tag))
         elif is_float(res):
             g.append("\twb := uint64(math.Float%dbits(want))" % rb)
             g.append("\tvfObserve(\"result\", vfSelect(vfNaN('%s', res[0]), 0x7ff8000000000000, res[0]))" % ("f" if rb == 32 else "F"))
-            g.append("\tvfAssert(vfB2U(res[0] == wb)|vfB2U(vfNaN('%s', res[0]))&vfB2U(vfNaN('%s', wb)) == 1, \"c01/result-equals-go\"+zone)" % ((("f" if rb == 32 else "F"),) * 2))
+            g.append("\tvfAssert(vfB2U(res[0] == wb)|vfB2U(vfNaN('%s', res[0]))&vfB2U(vfNaN('%s', wb)) == 1, \"TAGX/result-equals-go\"+zone)".replace("TAGX", tag) % ((("f" if rb == 32 else "F"),) * 2))
         else:
             mask = (1 << rb) - 1
             g.append("\tgot := res[0] & %#x" % mask)
             g.append("\tvfObserve(\"result\", got)")
             if res in SIGNED:
-                g.append("\tvfAssert(got == uint64(uint%d(want)), \"c01/result-equals-go\"+zone)" % rb)
+                g.append("\tvfAssert(got == uint64(uint%d(want)), \"TAGX/result-equals-go\"+zone)".replace("TAGX", tag) % rb)
             else:
-                g.append("\tvfAssert(got == uint64(want), \"c01/result-equals-go\"+zone)")
+                g.append("\tvfAssert(got == uint64(want), \"TAGX/result-equals-go\"+zone)".replace("TAGX", tag))
         g.append("}\n")
         go.append("\n".join(g))
         cases.append(name)
@@ -143,6 +152,7 @@ func VfH_c01() {
 	vfNote("case:" + c.name)
 	c.fn()
 }
-""")
-    go.append("var vfC01Cases = []struct {\n\tname string\n\tfn   func()\n}{\n" + "".join("\t{\"%s\", vfCase_%s},\n" % (n, n) for n in cases) + "}\n")
+""".replace("c01", tag).replace("C01", TAG).replace('return vfWasmLoad("%s")' % tag,
+            'h := vfWasmLoad("%s"); vfWasmCall(h, "_start"); return h' % tag if run_start else 'return vfWasmLoad("%s")' % tag))
+    go.append("var vf%sCases = []struct {\n\tname string\n\tfn   func()\n}{\n" % TAG + "".join("\t{\"%s\", vfCase%s_%s},\n" % (n, TAG, n) for n in cases) + "}\n")
     return "\n".join(wa), "\n".join(go), cases
